@@ -59,6 +59,16 @@ inductive Op where
   | route (m : Msg)
   deriving Repr
 
+/-- One event of a client-connection history: a call of `addMatch` / `delMatch`, the daemon's reply
+(success or error) to the `k`-th remote call issued so far, an incoming signal. -/
+inductive COp where
+  | addMatch (cb : Cb) (a : RuleArgs)
+  | delMatch (id : Nat)
+  | replyOk (k : Nat)
+  | replyErr (k : Nat)
+  | signal (m : Msg)
+  deriving Repr
+
 /-- `idx`-th body argument; a message without body has no arguments. -/
 def Msg.arg? (m : Msg) (i : Nat) : Option Arg := (m.body.getD [])[i]?
 
